@@ -194,8 +194,11 @@ def check_binders(run: Run, ctx: TermCtx, m, cls: ClassInfo, rule: str) -> None:
             # names of all targets of all generators
             whole = contains(t, lambda s: s[0] == "app" and s[1] == ("global", "ast.walk") and len(s[2]) == 1 and s[2][0][0] == "attr" and s[2][0][2] == "target")
             ok_t = ok_t or (contains(t, lambda s: s == ("attr", nodep, "generators")) and whole and contains(t, lambda s: s[0] == "attr" and s[2] == "id"))
+        whole_visit = any(isinstance(c_.func, ast.Attribute) and c_.func.attr == "generic_visit" for c_ in calls_in(h))
         run.check(ok_t, rule, h, h.node, "frame holds every Name inside every generator target (tuple targets included)", "the comprehension frame is not built from all Name nodes found by walking each generator's target: tuple-unpacked loop variables (for pt, eta in ..) are not protected and are replaced by a captured value of the same name", "[n.id for g in node.generators for n in ast.walk(g.target) if isinstance(n, ast.Name)]")
-        _paired(run, ctx, h, rule)
+        if whole_visit:
+            _paired(run, ctx, h, rule)  # piece-by-piece handlers: pairing around the element is judged by check_comprehension_shadow
+    check_comprehension_shadow(run, ctx, m, cls, rule)
     # is_arg consults every frame
     ia = cls.methods.get("is_arg")
     if ia is None:
@@ -356,7 +359,14 @@ def check_comprehension_shadow(run: Run, ctx: TermCtx, m, cls: ClassInfo, rule: 
                 else:
                     ok_i = False
                     why_i = f"the other iterables are taken from {show(r_)[:80]}: not generators[1:] / enumerate(generators) from 0"
+                if ok_i:
+                    # .. and the first one before the frame exists: python evaluates it in the enclosing scope
+                    ok_i = bool(pushes) and event_before(ctx, h, first[0], pushes[0])
+                    why_i = "the first iterable is visited after the frame of loop variables was pushed: a name in it that is also a loop variable ([j for j in range(j)]) is taken for the loop variable and not substituted"
             run.check(ok_i, rule, h, h.node, "every iterable is visited exactly once (the first outside the frame)", f"{h.name}: {why_i} - an iterable visited twice has substitutions applied to already substituted text (a name in the caller's argument that is spelled like another parameter is rewritten again)")
+        else:
+            whole = [e for e in evs if e.name == "generic_visit" and e.args and e.args[-1] == nodep]
+            run.check(not whole, rule, h, h.node, "the first iterable is visited outside the frame of loop variables", f"{h.name} visits the whole comprehension under the frame of its loop variables: python evaluates the first iterable in the enclosing scope, so in [j for j in range(j)] the j of range(j) is the outer one - here it is hidden and left un-substituted (a free name in the query)", "generators[0].iter = self.visit(generators[0].iter) before the frame is pushed", key="first iterable of a comprehension visited under its own loop variables")
         run.check(ok_p and ok_b, rule, h, h.node, "the element is visited between the push and the pop of that frame, on every path", f"{h.name} does not visit the comprehension's element under a frame that is pushed before and popped after it: loop variables are substituted, or the frame leaks into the rest of the expression")
 
 
